@@ -28,6 +28,14 @@ fn vx_witness_stability() {
                         let Ok(s) = State::new_npt(&eos, t, p, &(z.clone() * MOL), init) else { continue };
                         let Ok(trials) = s.stability_analysis(SolverOptions::default()) else { continue };
                         n_states += 1;
+                        // C07.1b: a minimisation cut off after one step must not turn into the verdict "stable" when the
+                        // full analysis finds a phase of lower Gibbs energy (a cut-off run either errs or agrees)
+                        if let Ok(cut) = s.stability_analysis(SolverOptions::new().max_iter(1)) {
+                            if cut.is_empty() && !trials.is_empty() {
+                                n_bad += 1;
+                                if n_bad <= 6 { println!("WITNESS stability_analysis({a}/{b}, T={t}, p={p}, z={z}) with max_iter = 1 returned Ok(no candidate) = 'stable', the full analysis finds {} candidate(s)", trials.len()); }
+                            }
+                        }
                         let d = s.ln_phi() + s.molefracs.mapv(f64::ln);
                         for y in &trials {
                             n_trials += 1;
